@@ -437,8 +437,8 @@ def findError (t : Idl) (name : Bytes) : Option Fields :=
     otherwise the tagged struct -/
 def payloadOf (al : Aliases) (fuel : Nat) (fs : Fields) (vs : ValList) : Payload :=
   if fs.isNil then .absent
-  else match encodeFieldsF al fuel fs vs with
-    | some ms => .val (.obj ms)
+  else match encodeF al fuel (.struct fs) (.struct vs) with
+    | some j => .val j
     | none => .bad
 
 /-- **client stub** `<M>().Send(ctx, c, flags, args…)`: what `Connection.Send` is asked to send -/
@@ -452,8 +452,8 @@ def replyAct (t : Idl) (fuel : Nat) (m : MethodSig) (outs : ValList) : Act :=
 /-- **error helper** `Reply<E>(ctx, fields…)`: always passes `&out`, also for an error without fields -/
 def errorAct (t : Idl) (fuel : Nat) (e : Bytes) (fs : Fields) (vs : ValList) : Act :=
   .replyError (joinDot t.name e)
-    (match encodeFieldsF (aliasesOf t) fuel fs vs with
-     | some ms => .val (.obj ms)
+    (match encodeF (aliasesOf t) fuel (.struct fs) (.struct vs) with
+     | some j => .val j
      | none => .bad)
 
 /-- what the generated `VarlinkDispatch` does with a call to method `m` of this interface -/
@@ -511,14 +511,16 @@ def clientError (t : Idl) (fuel : Nat) (name : Bytes) (params : Option JVal) : S
       else .otherError name params
     | _ => .otherError name params
 
-/-- the receive closure of the generated `Send`: decode the reply frame into the tagged `out` struct
-    (`json.Unmarshal` errors are ignored by `Connection.Send`'s receive: the struct keeps its zero value) -/
-def stubReceive (t : Idl) (fuel : Nat) (m : MethodSig) (frame : Bytes) : StubResult :=
-  match receiveFrame frame with
+/-- the receive closure of the generated `Send`, given what `Connection.Send`'s receive made of the frame:
+    decode the parameters into the tagged `out` struct (`json.Unmarshal` errors are ignored there: the struct
+    keeps its zero value) -/
+def stubResult (t : Idl) (fuel : Nat) (m : MethodSig) : RecvResult → StubResult
   | .reply params continues =>
     if m.outs.isNil then .values .nil continues
     else
-      let zero := (zeroFieldsF (aliasesOf t) fuel m.outs).getD .nil
+      let zero := match zeroF (aliasesOf t) fuel (.struct m.outs) with
+        | some (.struct vs) => vs
+        | _ => .nil
       match params with
       | none => .values zero continues
       | some j =>
@@ -528,5 +530,8 @@ def stubReceive (t : Idl) (fuel : Nat) (m : MethodSig) (frame : Bytes) : StubRes
   | .remoteError name params => clientError t fuel name params
   | .stdError e => .stdError e
   | _ => .failed
+
+def stubReceive (t : Idl) (fuel : Nat) (m : MethodSig) (frame : Bytes) : StubResult :=
+  stubResult t fuel m (receiveFrame frame)
 
 end Varlink.Stub
